@@ -3,14 +3,12 @@ package main
 import (
 	"encoding/json"
 	"fmt"
-	"go/format"
 	"path/filepath"
 	"sort"
 	"strings"
 	"sync"
 	"time"
 
-	"verif/sim/c12model"
 	"verif/sim/idlgen"
 	"verif/sim/simrt"
 )
@@ -83,31 +81,6 @@ func c19CmdJudge(c *c19CmdCase, wr *worldRun) (*c19CmdVerdict, bool) {
 		return bad("spurious-error", "no write-side step failed but thriftgo exited with status %d: %s", res.Exit, clip(wr.Stderr, 300))
 	}
 	// complete tree with each file's own post-processed content
-	var feeds []fedCall
-	for _, t := range res.Taps["feed"] {
-		var fc fedCall
-		json.Unmarshal(t, &fc)
-		feeds = append(feeds, fc)
-	}
-	work := &c12model.Work{}
-	for _, fc := range feeds {
-		fd := c12model.Feed{Src: fc.Src}
-		for _, f := range fc.Files {
-			it := c12model.Item{Content: string(f.Content)}
-			if f.HasName {
-				it.Name = string(f.Name)
-			}
-			if f.HasIP {
-				it.IP, it.IPSet = string(f.IP), true
-			}
-			fd.Items = append(fd.Items, it)
-		}
-		work.Feeds = append(work.Feeds, fd)
-	}
-	pre := c12model.Judge(work, nil, nil)
-	if pre.Undefined != "" || pre.FeedErrAt >= 0 {
-		return v, false
-	}
 	noFmt := false
 	for _, o := range c.Cfg.Opts {
 		if o == "no_fmt" {
@@ -125,26 +98,20 @@ func c19CmdJudge(c *c19CmdCase, wr *worldRun) (*c19CmdVerdict, bool) {
 			return bad("written-twice", "%s was opened for writing %d times", p, n)
 		}
 	}
-	for _, e := range pre.Table {
-		p := e.Name
-		if !filepath.IsAbs(p) {
-			p = filepath.Join(c.Cwd, p)
+	groups := feedGroups(res)
+	ptaps := persistTaps(res)
+	if len(groups) != 1 || len(ptaps) != 1 {
+		return bad("missing-file", "thriftgo exited with status 0 but the persist phase ran %d times for %d language(s)", len(ptaps), len(groups))
+	}
+	cls, _, msg, judged := judgeOutput(c.Cwd, noFmt, res, groups[0], ptaps[0], nil)
+	if !judged {
+		return v, false
+	}
+	if cls != "" {
+		if cls == "exit0-incomplete" {
+			cls = "missing-file"
 		}
-		p = filepath.Clean(p)
-		got, ok := res.Disk[p]
-		if !ok {
-			return bad("missing-file", "thriftgo exited with status 0 but %s is not on the disk", p)
-		}
-		want := e.Expected()
-		if string(got) == want {
-			continue
-		}
-		if !noFmt && strings.HasSuffix(p, ".go") {
-			if f, err := format.Source([]byte(want)); err == nil && string(f) == string(got) {
-				continue
-			}
-		}
-		return bad("wrong-content", "%s does not hold the post-processed content of its own entry (got %d bytes, want %d)", p, len(got), len(want))
+		return bad(cls, "%s", msg)
 	}
 	return v, true
 }
